@@ -633,10 +633,10 @@ static std::vector<const Shape*> pick_shapes(int maxn, int maxlen) {
 static void seqx_enumerate(seqx::Ctx& c, bool thorough) {
     g_shapes = make_shapes(4, 3);
 #if C14_PART == 1
-    // every single operation, full alphabet: counts/offsets 0..total+2, room 0..5, every partner shape (<=3 elements quick, <=4 thorough)
+    // every single operation, full alphabet: counts/offsets 0..total+2, room 0..5, every partner shape (<=2 elements quick, <=4 thorough)
     static Alpha full;
     full.extra = 2; full.rooms = {0, 1, 2, 3, 4, 5}; full.slice_rooms = {0, 1, 2, 3, 4, 5}; full.slice_counts = 0;
-    full.partners = pick_shapes(thorough ? 4 : 3, 3); full.size_mode = 0; full.push_sizes = {0, 1, 2, 3}; full.iov_partner_copy = true;
+    full.partners = pick_shapes(thorough ? 4 : 2, 3); full.size_mode = 0; full.push_sizes = {0, 1, 2, 3}; full.iov_partner_copy = true;
     enum_depth(c, full, pick_shapes(4, 3), 1);
 #elif C14_PART == 3
     // The canonical empty view: default-constructed iovector_view (iov == nullptr, iovcnt == 0), as the subject of every
@@ -671,11 +671,14 @@ static void seqx_enumerate(seqx::Ctx& c, bool thorough) {
     b2.extra = 2; b2.rooms = {1, 5}; b2.slice_rooms = {5}; b2.slice_counts = 0;      // smaller alphabet for the largest shapes of the tier
     for (const char* p : {"[]", "[1]", "[1,2]", "[0,1,0,3]"}) b2.partners.push_back(find_shape(p));
     b2.size_mode = 0; b2.push_sizes = {0, 1, 2}; b2.iov_partner_copy = false;
-    std::vector<const Shape*> upto2, upto3, only3, only4;
-    for (auto& s : g_shapes) { if (s.n <= 2) upto2.push_back(&s); if (s.n <= 3) upto3.push_back(&s); if (s.n == 3) only3.push_back(&s); if (s.n == 4) only4.push_back(&s); }
+    std::vector<const Shape*> upto2, upto3, only3small, only4;
+    for (auto& s : g_shapes) {
+        if (s.n <= 2) upto2.push_back(&s); if (s.n <= 3) upto3.push_back(&s); if (s.n == 4) only4.push_back(&s);
+        if (s.n == 3 && s.len[0] <= 2 && s.len[1] <= 2 && s.len[2] <= 2) only3small.push_back(&s);
+    }
     if (!thorough) {
         enum_depth(c, a2, upto2, 2);
-        enum_depth(c, b2, only3, 2);
+        enum_depth(c, a2, only3small, 2);
     } else {
         enum_depth(c, a2, upto3, 2);
         enum_depth(c, b2, only4, 2);
@@ -690,9 +693,9 @@ static void seqx_enumerate(seqx::Ctx& c, bool thorough) {
 }
 
 #if C14_PART == 1
-SEQX_MAIN("C14", "single", "every single operation of iovector_view (V) and IOVector (I) on every shape of 0..4 elements with element sizes {0,1,2,3}: sum, shrink_to, shrink_less_than, truncate, extract_front/back (discard | to buffer | to out-view with room 0..5 | to a fresh IOVector), extract_front/back_continuous, slice(count,offset,room 0..5), memcpy_to/from and pipe_to/from (flat buffer | view or IOVector of every shape with <=3 (quick) / <=4 (thorough) elements), push_back/front (buffer | allocating), pop_front/back; counts and offsets 0..total+2, sizes 0..max(total,other total)+1 and SIZE_MAX; reference = std::string of the concatenated elements; distinct = (object kind, op kind, relation of the count to the element boundaries [zero/inside/on boundary/total/beyond], room vs pieces, outcome, zero-length element present, #elements capped at 3, for two-vector ops: size vs transferable, which side is shorter, where the transfer ends in both element structures)")
+SEQX_MAIN("C14", "single", "every single operation of iovector_view (V) and IOVector (I) on every shape of 0..4 elements with element sizes {0,1,2,3}: sum, shrink_to, shrink_less_than, truncate, extract_front/back (discard | to buffer | to out-view with room 0..5 | to a fresh IOVector), extract_front/back_continuous, slice(count,offset,room 0..5), memcpy_to/from and pipe_to/from (flat buffer | view or IOVector of every shape with <=2 (quick) / <=4 (thorough) elements), push_back/front (buffer | allocating), pop_front/back; counts and offsets 0..total+2, sizes 0..max(total,other total)+1 and SIZE_MAX; reference = std::string of the concatenated elements; distinct = (object kind, op kind, relation of the count to the element boundaries [zero/inside/on boundary/total/beyond], room vs pieces, outcome, zero-length element present, #elements capped at 3, for two-vector ops: size vs transferable, which side is shorter, where the transfer ends in both element structures)")
 #elif C14_PART == 3
 SEQX_MAIN("C14", "nullview", "the default-constructed empty iovector_view (iov == nullptr, iovcnt == 0) as the subject of every single operation (counts 0..2, room {0,1}, other vectors {[],[1],[0,2],null}, sizes {0,1,2,3,SIZE_MAX}) and as the other vector of memcpy_to/from and pipe_to/from on V and I subjects of shapes {[],[1],[0,2]}; reference = the empty byte string; distinct = (object kind, op kind, relation class, crashed or not)")
 #else
-SEQX_MAIN("C14", "seq", "every sequence of 2 operations (first one mutating) on V and I: quick = shapes of 0..2 elements with alphabet A and 3 elements with alphabet B; thorough = 0..3 elements with A and 4 elements with B; element sizes {0,1,2,3}; A: counts/offsets 0..total+2, out-view room {1,2,5}, slice room {1,5}, other-vector shapes {[],[0],[1],[3],[1,2],[2,0,1],[0,1,0,3]}, sizes 0..max(total,other)+1 and SIZE_MAX; B: room {1,5}, slice room {5}, other-vector shapes {[],[1],[1,2],[0,1,0,3]}; thorough adds every sequence of 3 operations (first two mutating) over shapes of 0..3 elements with sizes {0,1,2}: counts 0..total+1, room {2}, slice counts {1,2,total+1} room 5, other-vector shapes {[],[1,0,2]}, sizes {0,1,3,SIZE_MAX}; the model is compared after every operation; distinct = (object kind, family of the earlier ops, full relation class of the last op as in target single)")
+SEQX_MAIN("C14", "seq", "every sequence of 2 operations (first one mutating) on V and I: quick = shapes of 0..2 elements (sizes {0,1,2,3}) and of 3 elements (sizes {0,1,2}) with alphabet A; thorough = 0..3 elements with A and 4 elements with B, element sizes {0,1,2,3}; A: counts/offsets 0..total+2, out-view room {1,2,5}, slice room {1,5}, other-vector shapes {[],[0],[1],[3],[1,2],[2,0,1],[0,1,0,3]}, sizes 0..max(total,other)+1 and SIZE_MAX; B: room {1,5}, slice room {5}, other-vector shapes {[],[1],[1,2],[0,1,0,3]}; thorough adds every sequence of 3 operations (first two mutating) over shapes of 0..3 elements with sizes {0,1,2}: counts 0..total+1, room {2}, slice counts {1,2,total+1} room 5, other-vector shapes {[],[1,0,2]}, sizes {0,1,3,SIZE_MAX}; the model is compared after every operation; distinct = (object kind, family of the earlier ops, full relation class of the last op as in target single)")
 #endif
